@@ -365,6 +365,7 @@ ensures unmoved(*old(p), *final(p)), r.kind == self.kind, r.pos == self.pos,
     DEC = 'invariant crate::parser::mono(*old(p), *p),\ndecreases crate::parser::rem(p.st()),'
     # progress contracts (stage 2): "consumes at least one token" under the stated condition on the cursor
     ENS = {
+        'source_file_contents': (' (%scur(final(p).st()) == SyntaxKind::EOF || (stop_on_r_curly && %scur(final(p).st()) == SyntaxKind::R_CURLY)),      //@C02,C01:stops-only-at-end-of-input' % (PW, PW), None),
         'literal': (SOME + ' res is None ==> final(p).pos == old(p).pos,', 'res'),
         'atom_expr': (SOME + ' %s ==> %sadv(*old(p), *final(p)),' % (LIVE, PW), 'res'),
         'cast_expr': (' is_classical_k(%s) ==> %sadv(*old(p), *final(p)),' % (CUR, PW), 'res'),
@@ -400,7 +401,7 @@ ensures unmoved(*old(p), *final(p)), r.kind == self.kind, r.pos == self.pos,
         'modified_gate_call_expr': ' %s,' % MODK,
     }
     LOOPS = {
-        'source_file_contents': {1: DEC}, 'switch_case_stmt': {1: 'invariant crate::parser::mono(*old(p), *p), p.pos > old(p).pos,\ndecreases crate::parser::rem(p.st()),'}, 'expr_block_statements': {1: DEC},
+        'source_file_contents': {1: 'invariant crate::parser::mono(*old(p), *p),\nensures crate::parser::mono(*old(p), *p), crate::parser::cur(p.st()) == SyntaxKind::EOF || (stop_on_r_curly && crate::parser::cur(p.st()) == SyntaxKind::R_CURLY),\ndecreases crate::parser::rem(p.st()),'}, 'switch_case_stmt': {1: 'invariant crate::parser::mono(*old(p), *p), p.pos > old(p).pos,\ndecreases crate::parser::rem(p.st()),'}, 'expr_block_statements': {1: DEC},
         'expr_bp': {1: 'invariant crate::parser::done_at(p.events@, lhs.pos as int), lhs.pos >= old(p).events@.len(), crate::parser::mono(*old(p), *p), bp >= 1, p.pos > old(p).pos,\ndecreases crate::parser::rem(p.st()),'},
         'postfix_expr': {1: 'invariant crate::parser::mono(*old(p), *p), (lhs.pos >= old(p).events@.len() || lhs.pos == lhs0.pos),\ndecreases crate::parser::rem(p.st()),'}, 'array_type_spec': {1: 'invariant crate::parser::mono(*old(p), *p), p.pos > old(p).pos,\ndecreases crate::parser::rem(p.st()),'},
         'indexed_identifier': {1: DEC},
@@ -461,7 +462,7 @@ pub mod entry {
         use super::*;
 """)
     g = U.file(G)
-    g.fn('source_file', depth=2, spec=gspec(), props=P, nodecreases=True, qualname='entry::top::source_file')
+    g.fn('source_file', depth=2, spec=gspec('', ' ' + PW + 'cur(final(p).st()) == SyntaxKind::EOF,                  //@C02,C01:whole-input-consumed'), props=P, nodecreases=True, qualname='entry::top::source_file')
     g.fn('expr', depth=2, spec=gspec(), props=P, nodecreases=True, qualname='entry::top::expr', ghost=[('m.complete(p, ERROR);', 'before', 'assume(p.has_err()); // KF:C12-expr-entry-error-node')], loops={1: 'invariant crate::parser::mono(*old(p), *p),\ndecreases crate::parser::rem(p.st()),'})
     U.raw('    }\n}\n')
     g.item('enum', 'BlockLike')
